@@ -359,7 +359,7 @@ def run_script(case, channel_cls=Channel):
             extra.append(sio.delivered)
             xchunks.append(list(sio.chunks))
             sio.chunks = []
-        final = [sio.unread(), bytes(ch._streambuf), len(ch.death_strings), len(ch._streams), bool(ch._log_prompt)]
+        final = [sio.unread(), bytes(ch._streambuf), len(ch.death_strings), len(ch._streams), bool(ch._log_prompt), bytes(sio.written)]
         return [out, final, extra, xchunks]
     finally:
         chmod.time = saved_time
